@@ -290,6 +290,9 @@ func overridden(t *x509.Certificate, oid []int) bool {
 
 func exec(line string) zv.Out {
 	f := strings.Fields(line)
+	if len(f) > 1 && (f[1] == "val" || f[1] == "valnil") {
+		return execVal(f)
+	}
 	if len(f) > 1 && (f[1] == "nc" || f[1] == "ncp") {
 		return execNC(f)
 	}
@@ -611,6 +614,7 @@ func gen(g *zv.Gen) {
 		emit(g, r.U64()>>1, k.Name, signer, int(algs[r.Intn(len(algs))]))
 	}
 	genNC(g)
+	genVal(g)
 	genReuse(g)
 }
 
